@@ -15,13 +15,12 @@ from checks.common import conclude
 
 MODULE = "Nice.Props.C17"
 THEOREMS = [f"Nice.Props.C17.{t}" for t in (
-    "C17_turntcp_split_independent_partial", "C17_turntcp_zero_frame_dependent", "C17_turntcp_no_fault",
-    "C17_rfc4571_split_independent", "C17_rfc4571_delivers_frames", "C17_rfc4571_no_fault",
-    "C17_rfc4571_send_frames", "C17_rfc4571_send_overread",
+    "C17_turntcp_split_independent", "C17_turntcp_no_fault",
+    "C17_rfc4571_split_independent", "C17_rfc4571_delivers_frames", "C17_rfc4571_no_fault", "C17_rfc4571_send_frames",
     "C17_socks5_split_dependent", "C17_socks5_whole_replies_partial", "C17_socks5_tunnel_identity",
     "C17_pseudossl_split_dependent", "C17_pseudossl_whole_hello_partial", "C17_pseudossl_tunnel_identity",
     "C17_http_split_dependent", "C17_http_payload_lost", "C17_http_tunnel_identity", "C17_http_no_fault_step",
-    "C17_frames_contiguous_partial", "C17_frames_not_contiguous", "C17_flush_contiguous")]
+    "C17_frames_contiguous", "C17_flush_contiguous")]
 TRUSTED = [
     "Lean 4 kernel; axioms propext, Classical.choice, Quot.sound only (audited every run)",
     "hand-written models Nice/Model/{SockBase,TurnTcp,Http,Socks5,PseudoSsl,Rfc4571,SendQueue}.lean, tied line by line to the "
